@@ -103,6 +103,12 @@ PipeFails(r) ==
          (IF r.built = 0 THEN {} ELSE
           Fails("declared", r.declared.tc = Decl(t, S)) \cup
           Fails("coverage", \A z \in 0..r.maxlevel : CovAt(r.cov, z) = CovOf(t, S, z)) \cup
+          \* C08: the advertised coverage of an overlay is the union (per level: the bounding box) of what its sources advertise
+          Fails("overlay_coverage", t.op # "overlay" \/
+                   \A z \in 0..r.maxlevel :
+                       LET RECURSIVE U(_)
+                           U(k) == IF k = 0 THEN <<>> ELSE DHull(U(k - 1), CovAt(r.child_cov[k], z))
+                       IN CovAt(r.cov, z) = U(Len(r.child_cov))) \cup
           Fails("lookup", \A i \in 1..Len(r.lookups) :
                    LET a == r.lookups[i] IN
                    IF a[4] = 0 THEN \A x \in want : CoordOf(x) # <<a[1], a[2], a[3]>> ELSE a \in want) \cup
